@@ -348,8 +348,9 @@ func (s *sched) noteX(c chunk, rest string) {
 	}
 	m := normMsg(x.Msg)
 	s.review[m]++
-	if _, ok := s.reviewEx[m]; !ok {
-		s.reviewEx[m] = c.fam.Name() + "#" + strconv.FormatInt(idx, 10)
+	ex := fmt.Sprintf("%s#%09d", c.fam.Name(), idx)
+	if old, ok := s.reviewEx[m]; !ok || ex < old { // deterministic: the smallest (family, index)
+		s.reviewEx[m] = ex
 	}
 }
 
